@@ -101,7 +101,8 @@ def run_s(ob):
     t0 = time.time()
     for sh in range(ob["shards"]):
         cmd = ["python3-vt", os.path.join(SMT, "worker.py"), ob["fn"], json.dumps(ob["kw"]), str(sh), str(ob["shards"])]
-        procs.append(subprocess.Popen(cmd, stdout=subprocess.PIPE, stderr=subprocess.PIPE, text=True))
+        env = dict(os.environ, BLV_TIER=ob.get("tier", "quick"))
+        procs.append(subprocess.Popen(cmd, stdout=subprocess.PIPE, stderr=subprocess.PIPE, text=True, env=env))
     results = []
     errors = []
     validation = None
@@ -157,16 +158,22 @@ def absorb(out, prop, ob, rec):
         out.solver_time += r.get("seconds") or 0
         out.bounds[qn] = r.get("bound")
         if r["verdict"] == "holds" and r.get("instance") and r.get("expect"):
-            # conformance: a solver-chosen instance of the template goes through the real find()
-            inst = dict(r, witness={"text": r["instance"]})
-            rep = native_replay.replay(prop, inst)
-            out.replayed += 1
-            lc = native_replay.linecol(r["instance"], r["expect"]) if prop == "C05" else []
-            if rep.get("reproduced") or lc:
+            # conformance: solver-chosen instances of the template go through the real find()
+            bad = None
+            for text in [r["instance"]] + list(r.get("instances") or []):
+                inst = dict(r, witness={"text": text})
+                rep = native_replay.replay(prop, inst)
+                out.replayed += 1
+                lc = native_replay.linecol(text, r["expect"]) if prop == "C05" else []
+                if rep.get("reproduced") or lc:
+                    bad = (text, rep, lc)
+                    break
+            if bad:
+                text, rep, lc = bad
                 out.violation(qn + "-instance", "the real find() does not behave as the model on a template instance %s" % r.get("class", ""),
-                              {"engine": "S+native", "query": qn, "witness": {"text": r["instance"]}, "native": rep, "linecol": lc,
+                              {"engine": "S+native", "query": qn, "witness": {"text": text}, "native": rep, "linecol": lc,
                                "note": "model holds (unsat) but the real code deviates on this solver-chosen instance: find() glue differs from its contract"})
-                out.add_obligation(qn, "S", "violated", seconds=r["seconds"], witness=r["instance"], native=rep)
+                out.add_obligation(qn, "S", "violated", seconds=r["seconds"], witness=text, native=rep)
                 continue
         if r["verdict"] == "holds":
             out.nontrivial.add(qn)
